@@ -7,6 +7,7 @@ import (
 	"fmt"
 	"io"
 	"math"
+	"os"
 	"os/exec"
 	"strconv"
 	"strings"
@@ -54,6 +55,10 @@ func startSolver(kind string, timeoutMs int) (*Solver, error) {
 		cmd = exec.Command("z3-new", "-in")
 	case "cvc5":
 		cmd = exec.Command("cvc5", "--incremental", "--produce-models", "--lang=smt2", fmt.Sprintf("--tlimit-per=%d", timeoutMs))
+	case "cvc5-int":
+		// bit-vectors solved as integers (mod 2^k semantics kept): decides linear
+		// 64-bit arithmetic that bit-blasting does not finish
+		cmd = exec.Command("cvc5", "--incremental", "--produce-models", "--lang=smt2", "--solve-bv-as-int=sum", fmt.Sprintf("--tlimit-per=%d", timeoutMs))
 	default:
 		return nil, fmt.Errorf("unknown solver %q", kind)
 	}
@@ -102,7 +107,7 @@ func (s *Solver) reset() {
 }
 
 func (s *Solver) preamble(ms int) string {
-	if s.kind == "cvc5" {
+	if strings.HasPrefix(s.kind, "cvc5") {
 		return "(reset)\n(set-logic ALL)\n"
 	}
 	return fmt.Sprintf("(reset)\n(set-option :timeout %d)\n", ms)
@@ -211,7 +216,11 @@ func (s *Solver) check(extra *Expr, isAssertion bool, vars []*Expr) (string, map
 			if s.oneshot != nil {
 				s.oneshot.close()
 			}
-			o, err := startSolver(s.kind, s.timeoutMs)
+			fk := s.kind
+			if strings.HasPrefix(fk, "cvc5") {
+				fk = "z3" // a different engine for what cvc5 could not decide quickly
+			}
+			o, err := startSolver(fk, s.timeoutMs)
 			if err != nil {
 				atomic.AddInt64(&gStats.unknown, 1)
 				return "unknown", nil
@@ -231,8 +240,27 @@ func (s *Solver) check(extra *Expr, isAssertion bool, vars []*Expr) (string, map
 	default:
 		atomic.AddInt64(&gStats.unknown, 1)
 	}
+	if d := time.Since(t0); d > 2*time.Second && slowLog != nil {
+		es := "<nil>"
+		if extra != nil {
+			es = extra.String()
+			if len(es) > 400 {
+				es = es[:400]
+			}
+		}
+		fmt.Fprintf(slowLog, "slow query %.1fs -> %s (session %d bytes): %s\n", d.Seconds(), res, s.hist.Len(), es)
+		if dir := os.Getenv("VERIF_SLOWDUMP"); dir != "" {
+			n := atomic.AddInt64(&slowN, 1)
+			if n < 20 {
+				os.WriteFile(fmt.Sprintf("%s/slow-%d.smt2", dir, n), []byte(s.hist.String()+q.String()), 0o644)
+			}
+		}
+	}
 	return res, model
 }
+
+var slowLog io.Writer
+var slowN int64
 
 // ask sends one query and reads its answer (and model).
 func (s *Solver) ask(query, epilogue string, names []string, vars []*Expr) (string, map[string]*Expr) {
